@@ -119,3 +119,13 @@ Definition check_case (c : case) : bool :=
   match c with
   | KPCase _ _ _ ops => all2 kobs_eqb (map obs_of ops) (model_obs c)
   end.
+
+(** A concrete well-formed single-endpoint history used as non-vacuity witness in Props/C05.v:
+    confirm; seal 0; KeyPhase() -> phase 1; seal 1; open the peer's phase-1 packet; the peer
+    acknowledges 1; seal 2 (two packets sent in phase 1) and KeyPhase() -> phase 2; seal 3;
+    the peer's phase-2 packet, then its phase-3 packet arrives -> phase 3. *)
+Definition update_example_ops : list (uop sct Z Z) :=
+  [ UConfirm; USeal 0 0 0; UKeyPhase; USeal 1 1 1;
+    UOpen 100 50 7 1 0 (sym_seal (1, 1) 7 0 0); UAck 1; UKeyPhase (* numSent = 1 < 2: no update yet *) ;
+    USeal 2 2 2; UKeyPhase; USeal 3 3 3;
+    UOpen 200 50 8 0 0 (sym_seal (1, 2) 8 0 0); UOpen 300 50 9 1 0 (sym_seal (1, 3) 9 0 0) ].
